@@ -281,6 +281,7 @@ type vkTruth struct {
 	Node       *vkNode  // if Exists
 	CE         []string // closest encloser (longest existing proper ancestor), when !Exists && !ENT
 	Wildcard   *vkNode  // source of synthesis when the name is wildcard-matched
+	WildENT    bool     // the source of synthesis *.CE exists as an empty non-terminal (RFC 4592: NODATA, not NXDOMAIN)
 }
 
 func (z *vkZone) Truth(q []string) vkTruth {
@@ -326,6 +327,8 @@ func (z *vkZone) Truth(q []string) vkTruth {
 	src := append([]string{"*"}, t.CE...)
 	if n, ok := z.Owners[vkKey(src)]; ok {
 		t.Wildcard = n
+	} else if _, ok := z.ENTs[vkKey(src)]; ok {
+		t.WildENT = true
 	}
 	return t
 }
@@ -346,6 +349,8 @@ func (t vkTruth) String() string {
 		return "exists" + vkTypesStr(t.Node.Types)
 	case t.ENT:
 		return "empty-non-terminal"
+	case t.WildENT:
+		return "wildcard-source-is-ENT(*." + vkPres(t.CE) + ")"
 	case t.Wildcard != nil:
 		return "wildcard-match(" + vkPres(t.Wildcard.Name) + vkTypesStr(t.Wildcard.Types) + ")"
 	}
@@ -481,7 +486,7 @@ func (z *vkZone) NSEC3Chain(p vkN3Params, optMode int) []vkN3Rec {
 				SaltLength: uint8(len(p.Salt) / 2),
 				Salt:       p.Salt,
 				HashLength: 20,
-				NextDomain: e.h,
+				NextDomain: next,
 				TypeBitMap: vkSortedTypes(ts...),
 			},
 			Name: e.n.Name,
